@@ -145,23 +145,56 @@ func vC14Key(k *dns.DNSKEY) string {
 
 type vC14Oracle struct {
 	msg           []byte
+	hids          []int // hash ids (1 SHA-1, 2 SHA-256, 4 SHA-384, 5 SHA-512) whose digest of msg is supplied
 	ecp, ecv, edv bool
 	none          bool
 }
 
-func vC14Digests(msg []byte) string {
-	h1 := sha1.Sum(msg)
-	h2 := sha256.Sum256(msg)
-	h4 := sha512.Sum384(msg)
-	h5 := sha512.Sum512(msg)
-	return fmt.Sprintf("[(1%%N, %s); (2%%N, %s); (4%%N, %s); (5%%N, %s)]", vC14Hex(h1[:]), vC14Hex(h2[:]), vC14Hex(h4[:]), vC14Hex(h5[:]))
+func vC14Digests(msg []byte, hids []int) string {
+	var p []string
+	for _, h := range hids {
+		var d []byte
+		switch h {
+		case 1:
+			x := sha1.Sum(msg)
+			d = x[:]
+		case 2:
+			x := sha256.Sum256(msg)
+			d = x[:]
+		case 4:
+			x := sha512.Sum384(msg)
+			d = x[:]
+		case 5:
+			x := sha512.Sum512(msg)
+			d = x[:]
+		default:
+			continue
+		}
+		p = append(p, fmt.Sprintf("(%d%%N, %s)", h, vC14Hex(d)))
+	}
+	return "[" + strings.Join(p, "; ") + "]"
+}
+
+// vC14HashIDFor is the hash a DNSSEC algorithm number signs with (RFC 3110, 5702, 6605).
+func vC14HashIDFor(alg uint8) []int {
+	switch alg {
+	case 5, 7:
+		return []int{1}
+	case 8, 13:
+		return []int{2}
+	case 14:
+		return []int{4}
+	case 10:
+		return []int{5}
+	}
+	return nil
 }
 
 func (o vC14Oracle) coq() string {
 	if o.none {
 		return "no_oracle"
 	}
-	return fmt.Sprintf("(mk_orc %s %s %s %s %s)", vC14Hex(o.msg), vC14Digests(o.msg), vC14Bool(o.ecp), vC14Bool(o.ecv), vC14Bool(o.edv))
+	return fmt.Sprintf("(mk_orc %s %s %s %s %s)", vC14Hex(o.msg), vC14Digests(o.msg, o.hids), vC14Bool(o.ecp), vC14Bool(o.ecv), vC14Bool(o.edv))
 }
 
 // ------------------------------------------------------------ generators
@@ -540,7 +573,7 @@ func TestVerifC14Prim(t *testing.T) {
 		vC14NewRSA(vC14Prime(r, 188), vC14Prime(r, 181)),
 	}
 	big1024 := vC14NewRSA(vC14P("p512a"), vC14P("p512b"))
-	rsaBudget := map[string]int{"small": n / 25, "big": 3}
+	rsaBudget := map[string]int{"small": n / 50, "big": 2}
 	if os.Getenv("VERIF_TIER") == "thorough" {
 		rsaBudget["big"] = 12
 	}
@@ -668,6 +701,17 @@ func vC14GenKeyMaterial(r *rand.Rand) (string, string) {
 		n = []int{4090, 4091, 4092, 4093, 4094}[r.Intn(5)]
 	}
 	s := base64.StdEncoding.EncodeToString(vC14RandBytes(r, n))
+	if r.Intn(12) == 0 {
+		// the recorded divergence: a group closed by padding exactly at the end of a
+		// 256-character chunk, with more material behind it
+		k := 1 + r.Intn(2)
+		head := base64.StdEncoding.EncodeToString(vC14RandBytes(r, 192*k-1-r.Intn(2)))
+		tail := base64.StdEncoding.EncodeToString(vC14RandBytes(r, 1+r.Intn(250)))
+		if r.Intn(3) == 0 {
+			head = vC14Wrap(r, head)
+		}
+		return head + tail, "padding-at-chunk-end"
+	}
 	switch r.Intn(10) {
 	case 0, 1:
 		return vC14Mangle(r, s), "mangled"
@@ -1135,13 +1179,15 @@ func vC14CaseDSMatch(tr *vC14Trace, r *rand.Rand) {
 		if got && !libMatch {
 			fail = fmt.Sprintf("dsDigestMatches accepted a digest (type %d, %s) that ToDS does not produce", dt, shape)
 		}
-		if !got && libMatch && dt != dns.SHA512 {
+		// deliberate differences, both stricter: digest type 5 (GOST by IANA, SHA-512 in the
+		// library) and a DNSKEY with no key material at all
+		if raw, _ := base64.StdEncoding.DecodeString(k.PublicKey); !got && libMatch && dt != dns.SHA512 && len(raw) > 0 {
 			fail = fmt.Sprintf("dsDigestMatches refused the digest ToDS produces (type %d)", dt)
 		}
 	}
 	o := vC14Oracle{none: true}
-	if pre, ok := vC14DSPreimage(k); ok && len(pre) < 600 {
-		o = vC14Oracle{msg: pre}
+	if pre, ok := vC14DSPreimage(k); ok {
+		o = vC14Oracle{msg: pre, hids: []int{int(dt)}}
 	}
 	tr.emit("ds-match-"+shape, fmt.Sprintf("CaseDSMatch %s %d %s %s %s %s", vC14Key(k), dt, vC14Hex(want), o.coq(), vC14Bool(got), vC14Bool(libMatch)), fail,
 		got || libMatch || dt == 1 || dt == 2 || dt == 4, map[string]any{"owner": name, "alg": k.Algorithm, "digest_type": dt, "shape": shape, "sdns": got, "lib": libMatch})
@@ -1248,7 +1294,8 @@ func vC14CaseVerifyDS(tr *vC14Trace, r *rand.Rand) {
 			}
 			var ref *dns.DS
 			vC14Guard(func() { ref = k.ToDS(d.DigestType) })
-			if ref != nil && strings.EqualFold(ref.Digest, d.Digest) {
+			// a DNSKEY without key material is refused here and hashed by the library: deliberate, stricter
+			if raw, _ := base64.StdEncoding.DecodeString(k.PublicKey); ref != nil && strings.EqualFold(ref.Digest, d.Digest) && len(raw) > 0 {
 				refOK = true
 			}
 		}
@@ -1264,13 +1311,22 @@ func vC14CaseVerifyDS(tr *vC14Trace, r *rand.Rand) {
 	sort.Ints(tags)
 	var km, orcs []string
 	seen := map[string]bool{}
+	var dts []int
+	for _, h := range []int{1, 2, 4} {
+		for _, d := range dss {
+			if int(d.DigestType) == h {
+				dts = append(dts, h)
+				break
+			}
+		}
+	}
 	for _, t := range tags {
 		var ks []string
 		for _, k := range keyMap[uint16(t)] {
 			ks = append(ks, vC14Key(k))
-			if pre, ok := vC14DSPreimage(k); ok && !seen[string(pre)] && len(pre) < 600 {
+			if pre, ok := vC14DSPreimage(k); ok && !seen[string(pre)] {
 				seen[string(pre)] = true
-				orcs = append(orcs, vC14Oracle{msg: pre}.coq())
+				orcs = append(orcs, vC14Oracle{msg: pre, hids: dts}.coq())
 			}
 		}
 		km = append(km, fmt.Sprintf("(%d%%N, [%s])", t, strings.Join(ks, "; ")))
